@@ -168,38 +168,63 @@ def gaps(rep, prog, rule):
              "component (the alpha position) through into_component / leaves it and all others "
              "through the table")
     n = 0
-    for name in ("color::MappingTable::<Out, SIZE>::map_image_typed",
-                 "color::MappingTable::<Out, SIZE>::map_image_inplace_typed"):
-        f = prog.fn_by_name(name)
-        rep.touch(f)
-        sym = Sym(f)
+    # switches directly on the component count (in the mapping functions or in a helper that
+    # receives the count): per arm the gap step that is chosen
+    for f in sorted(prog.fns.values(), key=lambda x: x.id):
+        if not f.file.endswith("src/color/mod.rs") or f.kind == "closure":
+            continue
+        sym = None
         for b, blk in enumerate(f.blocks):
-            t = blk["t"]
-            if blk["c"] or t[0] != "sw" or t[4] == "bool":
+            t_ = blk["t"]
+            if blk["c"] or t_[0] != "sw" or t_[4] == "bool":
                 continue
-            e = sym.operand(t[1])
-            if "count" not in fmt(e):
+            sym = sym or Sym(f)
+            e = sym.operand(t_[1], (b, "term"))
+            while e[0] == "cast":
+                e = e[2]
+            is_count = (e[0] in ("call", "callat") and (e[1] if e[0] == "call" else e[2]) == "count") or \
+                (e[0] == "param" and (e[2] or "").startswith(("count", "components")))
+            if not is_count:
                 continue
+            rep.touch(f)
             sw = Switch(f, b)
-            for v, tgt in sw.arms:
+            arms = list(sw.arms) + [(None, sw.otherwise)]
+            for v, tgt in arms:
+                blocks = (sw.arm_blocks(tgt) | {tgt}) if [x for _, x in arms].count(tgt) == 1 else {tgt}
+                step = None
+                plain = False
+                for c in f.calls():
+                    if c.bb not in blocks:
+                        continue
+                    if "map_with_gaps" in c.name:
+                        g = sym.operand(c.args[-1], (c.bb, "term"))
+                        step = g[1] if g[0] == "const" else "?"
+                    elif c.name.endswith(("::map", "::map_inplace")):
+                        plain = True
+                for bb in blocks:
+                    for st in f.blocks[bb]["s"]:
+                        if st[0] == "a" and st[2][0] == "agg" and st[2][1] == "adt" and \
+                                str(st[2][2]).endswith("option::Option") and st[2][4]:
+                            g = sym.operand(st[2][4][0], (bb, 0))
+                            step = g[1] if g[0] == "const" else "?"
+                if v is None:
+                    if step is not None:
+                        rep.bad(rule, "%s|otherwise" % f.name.rsplit("::", 1)[-1], f.term(b)[5],
+                                "pixel types without alpha get the gap step %s" % step)
+                    continue
                 n += 1
-                calls = [c for c in sw.arm_calls(tgt) if "map_with_gaps" in c.name or
-                         c.name.endswith(("::map", "::map_inplace"))]
-                key = "%s|arm%d" % (name.rsplit("::", 1)[-1], v)
-                if len(calls) == 1 and "map_with_gaps" in calls[0].name:
-                    g = sym.operand(calls[0].args[-1])
-                    if g == ("const", v, "usize"):
-                        rep.ok(rule, key, calls[0].at, "gap step %d" % v)
-                    else:
-                        rep.bad(rule, key, calls[0].at, "arm for %d components uses gap step %s"
-                                % (v, fmt(g)))
+                key = "%s|arm%d" % (f.name.rsplit("::", 1)[-1], v)
+                if step == v and v in (2, 4):
+                    rep.ok(rule, key, f.term(b)[5], "gap step %d" % v)
+                elif step not in (None, "?") and step != v:
+                    rep.bad(rule, key, f.term(b)[5], "arm for %d components uses gap step %s" % (v, step))
+                elif step is None and plain and v in (2, 4):
+                    rep.bad(rule, key, f.term(b)[5], "arm for %d components calls the plain map: alpha "
+                            "goes through the colour table" % v)
+                elif step is None and v not in (2, 4):
+                    rep.ok(rule, key, f.term(b)[5], "no gap step for %d components" % v)
                 else:
-                    rep.bad(rule, key, f.term(b)[5], "arm for %d components does not call "
-                            "map_with_gaps (alpha would go through the colour table)" % v)
-            oc = [c for c in sw.arm_calls(sw.otherwise)]
-            if any("map_with_gaps" in c.name for c in oc):
-                rep.bad(rule, "%s|otherwise" % name.rsplit("::", 1)[-1], f.term(b)[5],
-                        "pixel types without alpha use map_with_gaps")
+                    rep.unk(rule, key, f.term(b)[5], "gap step of the arm for %d components not resolved" % v)
     if n == 0:
         n = _gaps_by_pixel_type(rep, prog, rule)
     rep.floor(rule, "component-count arms", n, 4)
@@ -213,28 +238,38 @@ def gaps(rep, prog, rule):
         inplace = name.endswith("inplace")
         # the alpha branch is guarded by ((i + 1) % gap_step) == 0 (or != 0 for the table branch)
         guard_ok = False
-        for (p, s, cond, val) in sym.edge_facts():
-            if cond[0] == "bin" and cond[1] in ("Eq", "Ne") and "Rem" in fmt(cond) and \
-                    "gap_step" in fmt(cond) and "Add 1" in fmt(cond):
-                guard_ok = True
+        import re as _re
+        is_rem = lambda s_: "Rem" in s_ and "gap_step" in s_ and \
+            (_re.search(r"Add 1\)", s_) or _re.search(r"\(1 Add ", s_))
+        for b_ in range(len(f.blocks)):
+            if f.blocks[b_]["c"]:
+                continue
+            for cond, val in sym.facts_at(b_):
+                if cond[0] == "bin" and cond[1] in ("Eq", "Ne") and is_rem(fmt(cond)):
+                    guard_ok = True
         if not guard_ok:
-            rep.bad(rule, key + "|guard", f.loc, "no `(i + 1) %% gap_step` test selects the "
-                    "alpha position in %s" % name)
+            rep.unk(rule, key + "|guard", f.loc, "no `(i + 1) %% gap_step` test recognised in %s" % name)
             continue
         if inplace:
             rep.ok(rule, key, f.loc, "alpha position skipped by (i+1) % gap_step")
         elif len(conv) == 1:
             facts = sym.facts_at(conv[0].bb)
-            on_alpha = any(cc[0] == "bin" and "Rem" in fmt(cc) and
+            on_alpha = any(cc[0] == "bin" and is_rem(fmt(cc)) and
                            ((cc[1] == "Eq" and v is True) or (cc[1] == "Ne" and v is False))
                            for cc, v in facts)
+            off_alpha = any(cc[0] == "bin" and is_rem(fmt(cc)) and
+                            ((cc[1] == "Eq" and v is False) or (cc[1] == "Ne" and v is True))
+                            for cc, v in facts)
             if on_alpha:
                 rep.ok(rule, key, conv[0].at, "into_component on the alpha position only")
-            else:
+            elif off_alpha:
                 rep.bad(rule, key, conv[0].at, "into_component is applied where (i+1) %% gap_step "
                         "!= 0: colour components bypass the table and alpha goes through it")
+            else:
+                rep.unk(rule, key, conv[0].at, "position of the into_component call relative to the "
+                        "gap test not resolved")
         else:
-            rep.bad(rule, key, f.loc, "%d into_component calls in %s" % (len(conv), name))
+            rep.unk(rule, key, f.loc, "%d into_component calls in %s" % (len(conv), name))
 
 
 ALPHA_STEP = {"U8x2": 2, "U8x4": 4, "U16x2": 2, "U16x4": 4}
